@@ -71,17 +71,31 @@ def strip_comments(text):
     return "\n".join(l.split("--")[0] for l in text.splitlines())
 
 
+def library_files():
+    """The .lean files `lake build` checks: everything imported (transitively) from the library
+    root MiniMoka.lean and from Main.lean. Files nobody imports (work in progress) are not part
+    of what is claimed."""
+    seen, todo = set(), ["MiniMoka", "Main"]
+    while todo:
+        mod = todo.pop()
+        path = os.path.join(LEAN, *mod.split(".")) + ".lean"
+        if mod in seen or not os.path.exists(path):
+            continue
+        seen.add(mod)
+        for l in open(path).read().splitlines():
+            m = re.match(r"\s*import\s+(MiniMoka[\w.]*)", l)
+            if m:
+                todo.append(m.group(1))
+    return sorted(os.path.join(LEAN, *m.split(".")) + ".lean" for m in seen)
+
+
 def grep_banned():
     hits = []
-    for dp, _, fns in os.walk(os.path.join(LEAN, "MiniMoka")):
-        for fn in fns:
-            if fn.endswith(".lean"):
-                path = os.path.join(dp, fn)
-                body = strip_comments(open(path).read())
-                for i, l in enumerate(body.splitlines(), 1):
-                    if BANNED.search(l):
-                        hits.append(f"{os.path.relpath(path, LEAN)}:{i}: {l.strip()}")
-    main = os.path.join(LEAN, "Main.lean")
+    for path in library_files():
+        body = strip_comments(open(path).read())
+        for i, l in enumerate(body.splitlines(), 1):
+            if BANNED.search(l):
+                hits.append(f"{os.path.relpath(path, LEAN)}:{i}: {l.strip()}")
     return hits
 
 
